@@ -11,8 +11,8 @@ from extract import ExtractionError
 
 LR = "prqlc/prqlc-parser/src/lexer/lr.rs"
 
-LABELS = ["EQ1", "EQI", "EQD", "QS3", "FL1"]
-FUNCTIONS = ["escape_all_except_quotes", "quote_string", "float_arm"]
+LABELS = ["EQ1", "EQI", "EQD", "QS3", "FL1", "VU1"]
+FUNCTIONS = ["escape_all_except_quotes", "quote_string", "float_arm", "interval_arm"]
 RLIMIT = 80
 
 ASSUMED = [
@@ -28,6 +28,9 @@ ASSUMED = [
              "always has a `.` or an exponent (axiom_debug_is_float, from core::fmt::float: Debug uses float_to_general_debug, which prints `1.0`, `1e20`); Display of an "
              "integral value does not (`1`): nothing is assumed about it; the formatter is a shim with a ghost text",
      "keys": ["struct Formatter", "fn fmt_write_f64_display", "fn fmt_write_f64_debug", "spec fn f64_display_text", "spec fn f64_debug_text", "fn axiom_debug_is_float", "spec fn reads_as_float"]},
+    {"what": "std formatting: `write!(f, \"{}{}\", a, b)` appends the Display text of a and then that of b; Display of an i64 is the uninterpreted i64_display_text(n) (the decimal "
+             "digits, which the lexer's integer rule reads back as n: unit lex_numbers), Display of a String is the string; ValueAndUnit is the real struct",
+     "keys": ["fn fmt_write_i64_display", "fn fmt_write_string_display", "spec fn i64_display_text"]},
     common_std.VERIF_ITER_ASSUMPTION,
     {"what": "quote_string: str::contains / starts_with / ends_with for a char have their std meaning; the iterator chain `s.split(|c| c != quote).map(len).max().unwrap_or(0)` "
              "is max_run(): the length of the longest run of that quote in s (0 if it does not occur); `quote.to_string().repeat(n)` is n copies of the quote; the two "
@@ -125,6 +128,12 @@ pub broadcast proof fn axiom_debug_is_float(x: f64) ensures reads_as_float(#[tri
 pub fn fmt_write_f64_display(f: &mut Formatter, x: &f64) -> (r: Result<(), ()>) ensures final(f).text@ == old(f).text@ + f64_display_text(*x), { unimplemented!() }
 #[verifier::external_body]
 pub fn fmt_write_f64_debug(f: &mut Formatter, x: &f64) -> (r: Result<(), ()>) ensures final(f).text@ == old(f).text@ + f64_debug_text(*x), { unimplemented!() }
+// ---------------------------------------------------------------- interval literals
+pub uninterp spec fn i64_display_text(x: i64) -> Seq<char>;
+#[verifier::external_body]
+pub fn fmt_write_i64_display(f: &mut Formatter, x: &i64) -> (r: Result<(), ()>) ensures final(f).text@ == old(f).text@ + i64_display_text(*x), { unimplemented!() }
+#[verifier::external_body]
+pub fn fmt_write_string_display(f: &mut Formatter, x: &String) -> (r: Result<(), ()>) ensures final(f).text@ == old(f).text@ + x@, { unimplemented!() }
 
 pub open spec fn reads_back(out: Seq<char>, s: Seq<char>, ps: Seq<Seq<char>>) -> bool {
     ps.len() == s.len() && out == flat(ps) && forall|i: int| 0 <= i < s.len() ==> decodes_to(#[trigger] ps[i], s[i])
@@ -208,8 +217,23 @@ def build(X):
                "{\n    broadcast use axiom_debug_is_float;\n    %s;\n    Ok(())\n}\n" % (m.group(1), "fmt_write_f64_debug(f, %s)?" % m.group(1) if m.group(3) else "fmt_write_f64_display(f, %s)?" % m.group(1)))
     df.rewrites.append({"rule": "slice", "what": "arm `Literal::Float(x) => write!(f, ..)?` of Display for Literal wrapped as fn float_arm(f, x)"})
     df.rewrites.append({"rule": "R5", "what": "`write!(f, \"{x}\")` -> fmt_write_f64_display(f, x); `write!(f, \"{x:?}\")` -> fmt_write_f64_debug(f, x)"})
+    # ---- Display for Literal: the ValueAndUnit arm (whole arm)
+    vs = X.type_item(LR, "struct", "ValueAndUnit")
+    vs.drop_attrs()
+    vs.rewrite_re("R1", r"//[^\n]*\n", "\n", count=None, why="comments")
+    iv = X.arm_body(LR, "fmt", "Literal::ValueAndUnit(i) =>", name="interval_arm", after="impl std::fmt::Display for Literal")
+    iv.rewrite_re("R5", r"write!\(f, \"\{\}\{\}\", ([^,()]+), ([^,()]+)\)\?;", r"fmt_write_i64_display(f, &\1)?; fmt_write_string_display(f, &\2)?;", count=None,
+                  why="write! with the format \"{}{}\": the Display text of the first argument (an i64), then that of the second (a String)")
+    if "write!" in iv.text:
+        raise ExtractionError("Display for Literal, ValueAndUnit arm: a write! the unit has no rule for")
+    iv.text = ("pub fn interval_arm(f: &mut Formatter, i: &ValueAndUnit) -> (r: Result<(), ()>)\n"
+               "    ensures\n"
+               "        // C14: an interval is printed as its count followed by its unit word AS STORED - the lexer knows the unit words in one spelling only (`1months`: `1month` is the\n"
+               "        // integer 1 and a name)\n"
+               "        r is Ok ==> final(f).text@ == old(f).text@ + i64_display_text(i.n) + i.unit@, // @VU1\n"
+               "{\n" + iv.text + "\n    Ok(())\n}\n")
     wrap_escaped = "#[verifier::external_body] pub fn fmt_wrap_escaped(s: &str) -> (r: String) ensures r@ == seq!['\"'] + escape_dq(s@) + seq!['\"'], { unimplemented!() }\n"
-    return PRELUDE + ef.text + "\n" + wrap_escaped + qs.text + "\n" + df.text + "\n} // verus!\nfn main() {}\n"
+    return PRELUDE + ef.text + "\n" + wrap_escaped + qs.text + "\n" + df.text + "\npub mod interval {\nuse super::*;\n" + vs.text + "\n" + iv.text + "\n}\n} // verus!\nfn main() {}\n"
 
 
 # ----------------------------------------------------------------------------- replay / sweep on the real formatter
